@@ -378,11 +378,94 @@ fn real_by_name(name: &str) -> Value {
     }
 }
 
+/// "dec": the decoded value itself, given by its serde_json image, for the types the specification describes (spec/Decode.tla: Zoo)
+fn dec_img<T>(var: &Variable, val: &Value) -> (Value, Value)
+where
+    T: serde::de::DeserializeOwned + std::fmt::Debug + Serialize,
+{
+    let img = |r: Option<T>| match r {
+        Some(x) => match serde_json::to_value(&x) {
+            Ok(v) => json!({"ok":tag_json(&v)}),
+            Err(_) => json!({"harness":ascii_cps("the decoded value has no image")}),
+        },
+        None => json!({"err":true}),
+    };
+    (img(T::deserialize(var.clone()).ok()), img(serde_json::from_value::<T>(val.clone()).ok()))
+}
+
+pub const MODEL_TYPES: [(&str, &str); 38] = [("bool", "bool"), ("i8", "i8"), ("u8", "u8"), ("i32", "i32"), ("i64", "i64"), ("u64", "u64"), ("f64", "f64"),
+    ("char", "char"), ("String", "String"), ("OptI32", "Option<i32>"), ("unit", "()"), ("Unit", "Unit"), ("Newtype", "Newtype"), ("VecI32", "Vec<i32>"),
+    ("VecU8", "Vec<u8>"), ("TupI32String", "(i32,String)"), ("Pair", "Pair"), ("Point", "Point"), ("E", "E"), ("MapStringI32", "BTreeMap<String,i32>"),
+    ("VecOptBool", "Vec<Option<bool>>"), ("Outer", "Outer"), ("OptE", "Option<E>"), ("VecPoint", "Vec<Point>"), ("MapUserIdVecU32", "BTreeMap<UserId,Vec<u32>>"),
+    ("MapCharI32", "BTreeMap<char,i32>"), ("MapColorI32", "BTreeMap<Color,i32>"), ("Flat", "Flat"), ("VecUserId", "Vec<UserId>"), ("ArrI32x2", "[i32;2]"),
+    ("BoxPoint", "Box<Point>"), ("TupUserIdI32", "(UserId,i32)"), ("MapStringOptPoint", "BTreeMap<String,Option<Point>>"), ("IT", "IT"), ("AT", "AT"),
+    ("UT", "UT"), ("FirstEntry", "FirstEntry"), ("VecIT", "Vec<IT>")];
+
+fn dec_img_by_name(ty: &str, var: &Variable, val: &Value) -> Option<(Value, Value)> {
+    Some(match ty {
+        "bool" => dec_img::<bool>(var, val),
+        "i8" => dec_img::<i8>(var, val),
+        "u8" => dec_img::<u8>(var, val),
+        "i32" => dec_img::<i32>(var, val),
+        "i64" => dec_img::<i64>(var, val),
+        "u64" => dec_img::<u64>(var, val),
+        "f64" => dec_img::<f64>(var, val),
+        "char" => dec_img::<char>(var, val),
+        "String" => dec_img::<String>(var, val),
+        "Option<i32>" => dec_img::<Option<i32>>(var, val),
+        "()" => dec_img::<()>(var, val),
+        "Unit" => dec_img::<Unit>(var, val),
+        "Newtype" => dec_img::<Newtype>(var, val),
+        "Vec<i32>" => dec_img::<Vec<i32>>(var, val),
+        "Vec<u8>" => dec_img::<Vec<u8>>(var, val),
+        "(i32,String)" => dec_img::<(i32, String)>(var, val),
+        "Pair" => dec_img::<Pair>(var, val),
+        "Point" => dec_img::<Point>(var, val),
+        "E" => dec_img::<E>(var, val),
+        "BTreeMap<String,i32>" => dec_img::<BTreeMap<String, i32>>(var, val),
+        "Vec<Option<bool>>" => dec_img::<Vec<Option<bool>>>(var, val),
+        "Outer" => dec_img::<Outer>(var, val),
+        "Option<E>" => dec_img::<Option<E>>(var, val),
+        "Vec<Point>" => dec_img::<Vec<Point>>(var, val),
+        "BTreeMap<UserId,Vec<u32>>" => dec_img::<BTreeMap<UserId, Vec<u32>>>(var, val),
+        "BTreeMap<char,i32>" => dec_img::<BTreeMap<char, i32>>(var, val),
+        "BTreeMap<Color,i32>" => dec_img::<BTreeMap<Color, i32>>(var, val),
+        "Flat" => dec_img::<Flat>(var, val),
+        "Vec<UserId>" => dec_img::<Vec<UserId>>(var, val),
+        "[i32;2]" => dec_img::<[i32; 2]>(var, val),
+        "Box<Point>" => dec_img::<Box<Point>>(var, val),
+        "(UserId,i32)" => dec_img::<(UserId, i32)>(var, val),
+        "BTreeMap<String,Option<Point>>" => dec_img::<BTreeMap<String, Option<Point>>>(var, val),
+        "IT" => dec_img::<IT>(var, val),
+        "AT" => dec_img::<AT>(var, val),
+        "UT" => dec_img::<UT>(var, val),
+        "FirstEntry" => dec_img::<FirstEntry>(var, val),
+        "Vec<IT>" => dec_img::<Vec<IT>>(var, val),
+        _ => return None,
+    })
+}
+
 pub fn run_case(case: &Value) -> Value {
     let mut obs = case.clone();
     let out = if case["kind"] == "real" {
         let name = case["name"].as_str().unwrap_or("").to_string();
         guarded(|| real_by_name(&name))
+    } else if case["kind"] == "dec" {
+        // one JSON value decoded into every type the specification describes; the decoded values are reported by their images
+        guarded(|| {
+            let val = untag(&case["json"]);
+            let var = match Variable::from_json(&val.to_string()) {
+                Ok(v) => v,
+                Err(e) => return json!({"harness":ascii_cps(&e)}),
+            };
+            let mut res = serde_json::Map::new();
+            for (m, h) in MODEL_TYPES.iter() {
+                if let Some((a, b)) = dec_img_by_name(h, &var, &val) {
+                    res.insert(m.to_string(), json!({"lib":a,"serde_json":b}));
+                }
+            }
+            json!({"dec":Value::Object(res)})
+        })
     } else if case["kind"] == "ser" {
         guarded(|| {
             let node = Node(&case["tree"]);
